@@ -124,3 +124,52 @@ Definition client_read (r : http_res) : wire_res (list series) :=
   | HBody b => client_view b
   | _ => WErr
   end.
+
+(** ** /view-raw (cmd/view_raw.go readWhisperFileRawRemote, cmd/server.go handleViewRaw) *)
+Inductive raw_res := RwNotExist | RwErr | RwOk (h : handle) (pl : list (list point)).
+
+(** [readWhisperFileRawLocal] *)
+Definition read_raw (f : option handle) (aid : Z) : raw_res :=
+  match f, opened f with
+  | None, _ => RwNotExist
+  | Some _, None => RwErr
+  | Some _, Some h =>
+    if (aid =? ArchiveIDAll) || ((0 <=? aid) && (aid <? zlen (hd_arcs h)))
+    then RwOk h (raw_lists (hd_arcs h) 0 aid)
+    else RwErr
+  end.
+
+Definition view_raw_query (file : list Z) (aid : Z) : list Z :=
+  k_file ++ [61] ++ q_escape file ++ [38] ++ k_retention ++ [61] ++ print_int aid.
+
+Definition respond_raw (r : raw_res) : http_res :=
+  match r with
+  | RwNotExist => HBody []
+  | RwErr => HServerError
+  | RwOk h pl => match h_header h with
+                 | Some hd => HBody (view_raw_response hd pl)
+                 | None => HPanic
+                 end
+  end.
+
+Definition handle_view_raw (lookup : list Z -> option handle) (raw : list Z) : http_res :=
+  match parse_query raw with
+  | None => HBadRequest
+  | Some form =>
+    match form_get form k_retention with
+    | [] => HBadRequest
+    | rs => match atoi rs with
+            | None => HBadRequest
+            | Some aid => match form_get form k_file with
+                          | [] => HBadRequest
+                          | file => respond_raw (read_raw (lookup file) aid)
+                          end
+            end
+    end
+  end.
+
+Definition client_read_raw (r : http_res) : wire_res (list (list point)) :=
+  match r with
+  | HBody b => client_view_raw b
+  | _ => WErr
+  end.
